@@ -64,14 +64,14 @@ package headers
 //@   pure
 //@   allocs <= 0
 //@   requires 0 <= n && n < 1000000
-//@   ensures ok ==> 0 <= off(trimmed)-off(s) && off(trimmed)-off(s)+len(trimmed) <= len(s) && trimmed === s[off(trimmed)-off(s) : off(trimmed)-off(s)+len(trimmed)]
-//@   ensures ok ==> (forall k :: 0 <= k && k < off(trimmed)-off(s) ==> isOWS(s[k]))
-//@   ensures ok ==> (forall k :: off(trimmed)-off(s)+len(trimmed) <= k && k < len(s) ==> isOWS(s[k]))
-//@   ensures ok && len(trimmed) > 0 ==> !isOWS(trimmed[0]) && !isOWS(trimmed[len(trimmed)-1])
-//@   ensures ok && len(trimmed) > 0 ==> off(trimmed)-off(s) <= n && len(s) - (off(trimmed)-off(s)+len(trimmed)) <= n
-//@   ensures ok && len(trimmed) == 0 ==> len(s) <= n+1
-//@   ensures !ok ==> trimmed === s && len(s) > n+1
-//@   ensures !ok ==> (forall k :: len(s)-n-1 <= k && k < len(s) ==> isOWS(s[k])) || (forall k :: 0 <= k && k <= n ==> isOWS(s[k]))
+//@   ensures result1 ==> 0 <= off(result0)-off(s) && off(result0)-off(s)+len(result0) <= len(s) && result0 === s[off(result0)-off(s) : off(result0)-off(s)+len(result0)]
+//@   ensures result1 ==> (forall k :: 0 <= k && k < off(result0)-off(s) ==> isOWS(s[k]))
+//@   ensures result1 ==> (forall k :: off(result0)-off(s)+len(result0) <= k && k < len(s) ==> isOWS(s[k]))
+//@   ensures result1 && len(result0) > 0 ==> !isOWS(result0[0]) && !isOWS(result0[len(result0)-1])
+//@   ensures result1 && len(result0) > 0 ==> off(result0)-off(s) <= n && len(s) - (off(result0)-off(s)+len(result0)) <= n
+//@   ensures result1 && len(result0) == 0 ==> len(s) <= n+1
+//@   ensures !result1 ==> result0 === s && len(s) > n+1
+//@   ensures !result1 ==> (forall k :: len(s)-n-1 <= k && k < len(s) ==> isOWS(s[k])) || (forall k :: 0 <= k && k <= n ==> isOWS(s[k]))
 
 //@ func Check
 //@   props C14 C17 C18
